@@ -51,21 +51,38 @@ def run_case(case):
     init_c = case['init'] if fam == 'clip' else 2.0
     lin, gsm, opt, acc, sch = build(case, init_nm, init_c)
     out = {'traj': [live(opt, fam).hex()], 'osteps': [], 'err': None}
+    pend_v = None
     try:
         for op in case['ops']:
             if op == 'S':
                 sch.step()
+            elif op == 'V':
+                # one physical batch of a logical batch (a skipped step): a single huge sample along (1, 0)
+                if pend_v is None:
+                    opt.signal_skip_step(do_skip=True)
+                    gsm(torch.tensor([[5.0e6, 0.0]])).sum().backward()
+                    opt.step()
+                    opt.zero_grad()
+                    pend_v = float(opt.max_grad_norm)
             elif op == 'O':
-                x = torch.tensor([[3.0e6, 4.0e6]])
+                x = torch.tensor([[3.0e6, 4.0e6]]) if pend_v is None else torch.tensor([[0.0, 5.0e6]])
+                if pend_v is not None:
+                    opt.signal_skip_step(do_skip=False)
                 with NormalLog(zero=True) as nl:
                     gsm(x).sum().backward()
                     opt.step()
-                norm = float(lin.weight.grad.norm())
+                g_ = lin.weight.grad.flatten().tolist()
+                norm = float(lin.weight.grad.norm()) if pend_v is None else abs(g_[1])
                 opt.zero_grad()
                 out['osteps'].append({'std': nl.calls[0]['std'] if nl.calls else None, 'ncalls': len(nl.calls),
                                       'acc_sigma': float(acc.history[-1][0]), 'clipnorm': norm,
-                                      'nm': float(opt.noise_multiplier), 'C': float(opt.max_grad_norm)})
+                                      'nm': float(opt.noise_multiplier), 'C': float(opt.max_grad_norm),
+                                      'virt_clip': None if pend_v is None else abs(g_[0]), 'virt_C': pend_v})
+                pend_v = None
             elif op == 'R':
+                if pend_v is not None:
+                    out['traj'].append(live(opt, fam).hex())
+                    continue            # no restore in the middle of a logical batch
                 sd = sch.state_dict()
                 import copy, pickle
                 sd = {k: v for k, v in sd.items()}
